@@ -482,4 +482,151 @@ theorem as_colinc_test_is_the_model (mincol colinc minpad pad : Nat) (atm : Bool
     simp [dirAS_err, hc, Except.toBool, this]
     omega
 
+/-! ## ~A / ~S : the padding LOOP of the code is the model's rounded-up quotient
+
+`dirAS` builds the padding in a loop (`for len(out)+len(pad) < mincol { colinc more }` after `minpad`
+copies). The extractor turns the loop into the fuel-recursive `dirAS_loop1` (state = the length of `pad`;
+`none` when the fuel — the gap at the start + 1 — does not suffice). For ALL mincol, colinc ≥ 1, minpad and
+lengths of the printed argument: the fuel suffices and the loop ends with exactly the number of padding
+characters the model's closed form `padAS` gives. -/
+
+/-- the loop, started with `x` padding characters: with any fuel of at least the gap + 1 it ends after k
+    rounds, where k is the least number of increments that reaches mincol (k rounds do, k - 1 do not) -/
+theorem as_pad_loop_spec (i : In) (hc : 1 ≤ i.p_1) (hp : i.len_padchar = 1) (h0 : 0 ≤ i.argPos) (h1 : i.argPos < i.len_c_args) :
+    ∀ (n : Nat) (x : Int), (i.p_0 - (dirAS_outlen i + x) + 1).toNat ≤ n →
+      ∃ k : Nat, (∀ fuel, n ≤ fuel → dirAS_loop1 i fuel [x] = some [x + k * i.p_1])
+        ∧ i.p_0 ≤ dirAS_outlen i + x + k * i.p_1
+        ∧ (k = 0 ∨ dirAS_outlen i + x + ((k : Int) - 1) * i.p_1 < i.p_0) := by
+  have hcond : ∀ x : Int, dirAS_loop1_cond i [x] = decide (dirAS_outlen i + x < i.p_0) := by
+    intro x
+    have e1 : ¬ (i.argPos < 0) := by omega
+    have e2 : ¬ (i.len_c_args ≤ i.argPos) := by omega
+    simp [dirAS_loop1_cond, dirAS_outlen, fcNth, h0, e1, e2, Int.add_comm, Int.add_left_comm]
+  have hnext : ∀ x : Int, dirAS_loop1_next i [x] = [x + i.p_1] := by
+    intro x
+    have e : (0 : Int) < i.p_1 := by omega
+    simp [dirAS_loop1_next, fcNth, hp, e, Int.add_comm]
+  intro n
+  induction n with
+  | zero =>
+    intro x h
+    have hlt : ¬ (dirAS_outlen i + x < i.p_0) := by omega
+    refine ⟨0, ?_, ?_, Or.inl rfl⟩
+    · intro fuel _
+      cases fuel <;> (rw [dirAS_loop1, hcond]; simp [hlt])
+    · simp; omega
+  | succ n ih =>
+    intro x h
+    by_cases hlt : dirAS_outlen i + x < i.p_0
+    · obtain ⟨k, hk1, hk2, hk3⟩ := ih (x + i.p_1) (by omega)
+      refine ⟨k + 1, ?_, ?_, ?_⟩
+      · intro fuel hf
+        cases fuel with
+        | zero => omega
+        | succ m =>
+          rw [dirAS_loop1, hcond]
+          simp only [hlt, decide_true, if_true, hnext]
+          rw [hk1 m (by omega)]; congr 2; push_cast; rw [Int.add_mul]; omega
+      · push_cast; rw [Int.add_mul]; omega
+      · right
+        push_cast
+        rcases hk3 with rfl | hk3
+        · simp; omega
+        · have e0 : ((k : Int) + 1 - 1) = (k : Int) := by omega
+          have e1 : ((k : Int) - 1) * i.p_1 = (k : Int) * i.p_1 - i.p_1 := by rw [Int.sub_mul, Int.one_mul]
+          rw [e0]
+          omega
+    · refine ⟨0, ?_, ?_, Or.inl rfl⟩
+      · intro fuel _
+        cases fuel <;> (rw [dirAS_loop1, hcond]; simp [hlt])
+      · simp; omega
+
+/-- the least k with k * c ≥ d is the rounded-up quotient -/
+theorem least_multiple_is_ceil (c d k : Nat) (hc : 1 ≤ c) (h1 : d ≤ k * c) (h2 : k = 0 ∨ (k - 1) * c < d) :
+    k = (d + c - 1) / c := by
+  symm
+  apply Nat.div_eq_of_lt_le
+  · rcases h2 with rfl | h2
+    · simp
+    · have : k * c = (k - 1) * c + c := by
+        cases k with
+        | zero => omega
+        | succ m => simp [Nat.succ_mul]
+      omega
+  · have : (k + 1) * c = k * c + c := Nat.succ_mul k c
+    omega
+
+theorem pos_part (n : Nat) : (if decide ((0 : Int) < (n : Int)) = true then (n : Int) else 0) = (n : Int) := by
+  by_cases h : (0 : Int) < (n : Int)
+  · rw [if_pos (by simpa using h)]
+  · rw [if_neg (by simpa using h)]; omega
+
+theorem as_padding_code_is_the_model (i : In) (mincol colinc minpad L : Nat) (hc : 1 ≤ colinc)
+    (hm : i.p_0 = mincol) (hi : i.p_1 = colinc) (hp : i.p_2 = minpad) (hu : i.len_padchar = 1)
+    (h0 : 0 ≤ i.argPos) (h1 : i.argPos < i.len_c_args) (hL : dirAS_outlen i = L) :
+    dirAS_loopsok i = true
+    ∧ dirAS_padlen i = ((minpad + (if L + minpad < mincol then (mincol - (L + minpad) + colinc - 1) / colinc else 0) * colinc : Nat) : Int) := by
+  have e1 : ¬ (i.argPos < 0) := by omega
+  have e2 : ¬ (i.len_c_args ≤ i.argPos) := by omega
+  have e3 : ¬ (i.p_1 < 1) := by rw [hi]; omega
+  have hL' := hL
+  simp only [dirAS_outlen, h0, e1, e2, decide_true, decide_false, Bool.or_false, Bool.and_false, Bool.false_eq_true, if_false, Int.zero_add] at hL'
+  -- the code's loop: k rounds, the least number that reaches mincol
+  obtain ⟨k, hk1, hk2, hk3⟩ := as_pad_loop_spec i (by rw [hi]; omega) hu h0 h1 ((i.p_0 - (dirAS_outlen i + minpad) + 1).toNat) (minpad : Int) (Nat.le_refl _)
+  rw [hL] at hk1
+  -- … is the model's rounded-up quotient
+  have hk : k = (if L + minpad < mincol then (mincol - (L + minpad) + colinc - 1) / colinc else 0) := by
+    rw [hL, hm, hi] at hk2 hk3
+    have hk2' : mincol - (L + minpad) ≤ k * colinc := by
+      have : ((k * colinc : Nat) : Int) = (k : Int) * (colinc : Int) := by push_cast; rfl
+      omega
+    have hk3' : k = 0 ∨ (k - 1) * colinc < mincol - (L + minpad) := by
+      cases k with
+      | zero => left; rfl
+      | succ m =>
+        right
+        rcases hk3 with h | h
+        · omega
+        · have : ((m * colinc : Nat) : Int) = (m : Int) * (colinc : Int) := by push_cast; rfl
+          have e : ((m + 1 : Nat) : Int) - 1 = (m : Int) := by omega
+          rw [e] at h
+          simp only [Nat.add_sub_cancel]
+          omega
+    have := least_multiple_is_ceil colinc (mincol - (L + minpad)) k hc hk2' hk3'
+    split
+    · exact this
+    · have hz : mincol - (L + minpad) = 0 := by omega
+      rw [hz] at this
+      rw [this]
+      apply Nat.div_eq_of_lt; omega
+  constructor
+  · simp only [dirAS_loopsok, hp, hu, Int.mul_one, Int.zero_add, pos_part, hL']
+    rw [hk1 _ (by omega)]; rfl
+  · simp only [dirAS_padlen, h0, e1, e2, e3, decide_true, decide_false, Bool.or_false, Bool.and_false, Bool.false_eq_true, if_false,
+      hp, hu, Int.mul_one, Int.zero_add, pos_part, hL']
+    rw [hk1 _ (by omega)]
+    simp only [Option.getD_some, fcNth, List.getD_cons_zero]
+    rw [← hk, hi]
+    push_cast
+    rfl
+
+/-- … which is the padding `padAS` writes: the text it returns is that much longer than the argument's -/
+theorem as_padding_code_is_padAS (i : In) (mincol colinc minpad pad : Nat) (atm : Bool) (s t : Txt)
+    (hm : i.p_0 = mincol) (hi : i.p_1 = colinc) (hp : i.p_2 = minpad) (hu : i.len_padchar = 1)
+    (h0 : 0 ≤ i.argPos) (h1 : i.argPos < i.len_c_args) (hL : dirAS_outlen i = s.length)
+    (h : padAS mincol colinc minpad pad atm s = .ok t) :
+    dirAS_loopsok i = true ∧ (t.length : Int) = s.length + dirAS_padlen i := by
+  unfold padAS at h
+  by_cases hc : colinc = 0
+  · simp [hc] at h
+  · simp only [hc, if_false] at h
+    obtain ⟨hok, hlen⟩ := as_padding_code_is_the_model i mincol colinc minpad s.length (by omega) hm hi hp hu h0 h1 hL
+    refine ⟨hok, ?_⟩
+    rw [hlen]
+    injection h with h
+    subst h
+    cases atm <;> simp <;> split <;> simp_all <;> omega
+
+example : padAS 7 3 1 46 false [65, 66] = .ok [65, 66, 46, 46, 46, 46, 46, 46, 46] := by rfl
+
 end SlipVerif.Theorems.GenC15Code
